@@ -837,13 +837,13 @@ def _check(ctx, cases):
 
 def run(ctx):
     cases = _load_corpus()
-    for _ in range(ctx.n(8, 50)):
+    for _ in range(ctx.n(6, 50)):
         cases.append(_gen_case(ctx.rng, ctx.quick, modelled=True))
-    for _ in range(ctx.n(3, 30)):
+    for _ in range(ctx.n(2, 30)):
         cases.append(_gen_case(ctx.rng, ctx.quick, modelled=False))
-    for _ in range(ctx.n(4, 30)):
+    for _ in range(ctx.n(3, 30)):
         cases.append(_gen_default_case(ctx.rng))
-    for _ in range(ctx.n(4, 24)):
+    for _ in range(ctx.n(3, 24)):
         c = _gen_reset_case(ctx.rng)
         if c is not None:
             cases.append(c)
@@ -857,7 +857,7 @@ def run(ctx):
     for a in range(0, len(cases), B):
         _check(ctx, cases[a:a + B])
     tcases = [c for c in cases if c.get("poly") and not c.get("cgfake") and c.get("maxiter") != 0 and c.get("trust", True)]
-    _trust_tie(ctx, tcases[:ctx.n(8, 60)])
+    _trust_tie(ctx, tcases[:ctx.n(6, 60)])
 
 
 def search(ctx):
